@@ -531,10 +531,24 @@ package types
 //@ trusted func (tx *Transaction) GasPriceIntCmp(other *big.Int) (r int)
 //@   requires other != nil
 //@   ensures (r < 0 <==> gpOf(tx) < other.v) && (r == 0 <==> gpOf(tx) == other.v) && (r > 0 <==> gpOf(tx) > other.v)
+//@ spec func txNonce(tx *Transaction) int
+//@ spec func txGas(tx *Transaction) int
+//@ spec func txCost(tx *Transaction) int
+//@ spec func txValue(tx *Transaction) int
+//@ spec func txSize(tx *Transaction) int
 //@ trusted func (tx *Transaction) Nonce() (r uint64)
+//@   ensures r == txNonce(tx)
 //@ trusted func (tx *Transaction) Gas() (r uint64)
+//@   ensures r == txGas(tx)
 //@ trusted func (tx *Transaction) Cost() (r *big.Int)
-//@   ensures r != nil
+//@   ensures r != nil && r.v == txCost(tx)
+//@ trusted func (tx *Transaction) Value() (r *big.Int)
+//@   ensures r != nil && r.v == txValue(tx)
+//@ trusted func (tx *Transaction) Size() (r common.StorageSize)
+//@ trusted func (tx *Transaction) Data() (r []byte)
+//@ trusted func (tx *Transaction) To() (r *common.Address)
+// Sender recovers (or returns the cached) sender; the transaction's fields do not change.
+//@ trusted func Sender(signer Signer, tx *Transaction) (r common.Address, err error)
 //@ trusted func (tx *Transaction) Hash() (r common.Hash)
 
 // ---------------------------------------------------------------- C11: transaction signers
